@@ -14,7 +14,7 @@ def run(ctx):
         "implementation's output; clean_mathml itself is not modelled (7000 lines of heuristics), so these clauses are checked on generated inputs, not proved",
         "python's xml.etree parser is the reference for 'well-formed XML'"])
     rng = ctx.rng
-    n = 1600 if ctx.tier == "quick" else 60000
+    n = 4000 if ctx.tier == "quick" else 100000
     results = canon_run.run_stream(ctx, im, mo, n, canon_run.LOCALES)
     # special characters in text and attribute values
     sp_trees = []
